@@ -30,6 +30,13 @@ def fuzz(chk, secs):
                 pass
     crashers = glob.glob(os.path.join(src, "fuzz", "testdata", "fuzz", "FuzzCreate", "*"))
     if p.returncode != 0 and not crashers:
+        # a failure on the seed corpus writes no crasher file: reproduce it by running the seeds alone, in a fresh process
+        q = subprocess.run(["go", "test", "-tags", "verif", "-run", "FuzzCreate", "./fuzz"], cwd=src, env=env, capture_output=True, text=True, timeout=600)
+        qo = q.stdout + q.stderr
+        if q.returncode != 0 and "FuzzCreate" in qo:
+            msg = [l.strip() for l in qo.splitlines() if "fuzz_test.go" in l or "panic:" in l or "--- FAIL" in l]
+            chk.violation({"what": "an input of the fuzzing seed corpus violates the result shapes", "detail": " | ".join(msg)[:800]})
+            return execs
         raise vlib.Infra("go test -fuzz failed without a crasher:\n" + out[-2000:])
     for c in crashers:
         # reproduce in a fresh process
